@@ -147,7 +147,9 @@ func readSingleSst(fdata []byte, qid uint64) (*structs.SegStats, error) {
 	idx += hllSize
 
 	if sst.IsNumeric {
-		readNumericStats(&sst, fdata, idx)
+		if err := readNumericStats(&sst, fdata, idx); err != nil {
+			return nil, fmt.Errorf("qid=%d, readSingleSst: error reading numeric stats: %v", qid, err)
+		}
 		return &sst, nil
 	}
 
@@ -159,7 +161,21 @@ func readSingleSst(fdata []byte, qid uint64) (*structs.SegStats, error) {
 	return &sst, nil
 }
 
-func readNumericStats(sst *structs.SegStats, fdata []byte, idx uint32) {
+// The writer stores a numeric min / max / sum as SS_DT_FLOAT (float64) or SS_DT_SIGNED_NUM (int64). Any other tag in the
+// (un-checksummed) file would make the value and its dtype disagree and the aggregation code panic on a type assertion.
+func isValidNumericStatTag(d sutils.SS_DTYPE) bool {
+	return d == sutils.SS_DT_FLOAT || d == sutils.SS_DT_SIGNED_NUM || d == sutils.SS_INVALID || d == sutils.SS_DT_BACKFILL
+}
+
+func readNumericStats(sst *structs.SegStats, fdata []byte, idx uint32) error {
+	if uint32(len(fdata)) < idx+35 {
+		return fmt.Errorf("readNumericStats: %d bytes left, need 35", uint32(len(fdata))-idx)
+	}
+	for _, off := range []uint32{0, 9, 18} {
+		if d := sutils.SS_DTYPE(fdata[idx+off]); !isValidNumericStatTag(d) {
+			return fmt.Errorf("readNumericStats: invalid numeric type tag %v", d)
+		}
+	}
 	sst.NumStats = &structs.NumericStats{}
 
 	min := sutils.CValueEnclosure{}
@@ -200,6 +216,7 @@ func readNumericStats(sst *structs.SegStats, fdata []byte, idx uint32) {
 
 	// read NumericCount
 	sst.NumStats.NumericCount = utils.BytesToUint64LittleEndian(fdata[idx : idx+8])
+	return nil
 }
 
 func readNonNumericStats(sst *structs.SegStats, fdata []byte, idx uint32) error {
